@@ -50,4 +50,10 @@ var oracleScripts = []oracleScript{
 		[]scriptOp{{Op: "move", Key: "team.alice", Arg: "alice"}}},
 	{"move-out-of-nested-parent-with-collision", "p: {\n  tooltip: T1\n  q: {\n    tooltip: T2\n    x: {tooltip: T3}\n    c: {\n      tooltip: T4\n      x: {tooltip: T5}\n      y: {tooltip: T6}\n      x -> y: E1\n    }\n  }\n}\nz: {tooltip: T7}\n",
 		[]scriptOp{{Op: "move", Key: "p.q.c", Arg: "z.c"}}},
+	{"delete-attribute-that-a-descendant-sets-through-a-flat-key", "a: {tooltip: T1}\na.style.fill: red\na.b.style.fill: blue\na.b.tooltip: T2\na.width: 120\na.b.width: 80\na.link: https://example.com/a\na.b.link: https://example.com/b\n",
+		[]scriptOp{{Op: "delete-attr", Key: "a", Arg: "style.fill"}, {Op: "delete-attr", Key: "a", Arg: "width"}, {Op: "delete-attr", Key: "a", Arg: "link"}}},
+	{"create-with-a-key-taken-on-the-nested-board-only", "x: {tooltip: T1}\nlayers: {\n  l1: {\n    y: Why {tooltip: T2}\n    q: {tooltip: T3}\n    y -> q: E1\n  }\n}\n",
+		[]scriptOp{{Op: "create", Key: "y", Board: []string{"l1"}}, {Op: "create", Key: "q", Board: []string{"l1"}}, {Op: "create", Key: "x", Board: []string{"l1"}}}},
+	{"create-with-a-key-taken-on-the-root-board", "x: Ex {tooltip: T1}\ny: {tooltip: T2}\nx -> y: E1\n",
+		[]scriptOp{{Op: "create", Key: "x"}, {Op: "create", Key: "Y"}, {Op: "create", Key: "x"}}},
 }
